@@ -97,6 +97,15 @@ func lstr(s string) string {
 	return b.String()
 }
 
+// lbytes renders a Go string as a Lean byte list.
+func lbytes(s string) string {
+	parts := make([]string, len(s))
+	for i := 0; i < len(s); i++ {
+		parts[i] = fmt.Sprintf("0x%02X", s[i])
+	}
+	return "[" + strings.Join(parts, ", ") + "]"
+}
+
 func lint(s string) string {
 	if strings.HasPrefix(s, "-") {
 		return "(" + s + ")"
@@ -195,7 +204,7 @@ func (x *castX) expr(e ast.Expr) (string, bool) {
 					return "(.f32Lit " + lint(c) + ")", true
 				}
 				if tname == "encoding/json.Number" && atv.Value.Kind() == constant.String {
-					return "(.numLit " + lstr(constant.StringVal(atv.Value)) + ")", true
+					return "(.numLit " + lbytes(constant.StringVal(atv.Value)) + ")", true
 				}
 				return "", false
 			}
